@@ -64,12 +64,14 @@ int main(int argc, char** argv) {
             }
         }
         std::vector<G> gs(nb);
+        bool negative_lobes = false;
         float* data = ps->getData();
         for (uint32_t b = 0; b < nb; b++) {
             float* d = data + b * nn;
             if (flavour == 2) { for (size_t i = 0; i < nn; i++) d[i] = (float)(r.chance(0.1) ? 0 : r.uni(0, 3)); continue; }
             int ng = (flavour == 0) ? 1 : (int)r.range(2, 3);
             std::fill(d, d + nn, 0.0f);
+            double mixW = 0, mixM[2] = {0, 0}, mixS[2] = {0, 0};     // analytic charge, first and second moments of the mixture so far
             for (int k = 0; k < ng; k++) {
                 G g; g.sx = r.uni(2.5, n / 14.0 + 2.6) * d0; g.sy = r.uni(2.5, n / 14.0 + 2.6) * d1;
                 double qlo = ps->getMin(0) + 5.5 * g.sx, qhi = ps->getMax(0) - 5.5 * g.sx;
@@ -77,6 +79,25 @@ int main(int argc, char** argv) {
                 if (qlo > qhi) { qlo = qhi = 0.5 * (ps->getMin(0) + ps->getMax(0)); g.sx = (ps->getMax(0) - ps->getMin(0)) / 11.5; }
                 if (plo > phi) { plo = phi = 0.5 * (ps->getMin(1) + ps->getMax(1)); g.sy = (ps->getMax(1) - ps->getMin(1)) / 11.5; }
                 g.mx = r.uni(qlo, qhi); g.my = r.uni(plo, phi); g.a = r.logu(1e-3, 1e3);
+                // mixtures: every other one has a negative component (cells below zero are ordinary in simulated states with unclamped
+                // interpolation); it stays weaker than the first component so that the bunch's charge remains positive
+                if (k > 0 && k == ng - 1 && (c / 3) % 2 == 1) {
+                    // charge of the negative lobe: 5-25 % of what is there, reduced until both widths of the bunch stay well defined
+                    double rho = r.uni(0.05, 0.25);
+                    for (int t = 0; t < 8; t++) {
+                        double wk = -rho * mixW; bool ok = true;
+                        for (int ax = 0; ax < 2; ax++) {
+                            double mu = ax ? g.my : g.mx, sg = ax ? g.sy : g.sx;
+                            double W1 = mixW + wk, m1 = (mixM[ax] + wk * mu) / W1, v1 = (mixS[ax] + wk * (sg * sg + mu * mu)) / W1 - m1 * m1;
+                            double v0 = mixS[ax] / mixW - (mixM[ax] / mixW) * (mixM[ax] / mixW);
+                            if (!(v1 > 0.4 * v0)) ok = false;
+                        }
+                        if (ok) break;
+                        rho *= 0.5;
+                    }
+                    g.a = -rho * mixW / (g.sx * g.sy); negative_lobes = true;
+                }
+                { double w = g.a * g.sx * g.sy; mixW += w; mixM[0] += w * g.mx; mixM[1] += w * g.my; mixS[0] += w * (g.sx * g.sx + g.mx * g.mx); mixS[1] += w * (g.sy * g.sy + g.my * g.my); }
                 if (k == 0) gs[b] = g;
                 for (uint32_t x = 0; x < n; x++) for (uint32_t y = 0; y < n; y++) {
                     double q = ps->q(x), p = ps->p(y);
@@ -221,6 +242,7 @@ int main(int argc, char** argv) {
                 if (!vh::bits_equal((float)rep_mean[ax][b], mean[b]) || !vh::bits_equal((float)rep_rms[ax][b], rms[b])) same = false;
             }
             M.ev("copies_checked");
+            { bool anyneg = false; for (size_t i = 0; i < nn * nb && !anyneg; i++) if (data[i] < 0) anyneg = true; if (anyneg) M.ev("copies_checked_with_negative_cells"); }
             if (!same) {
                 vh::J d; d.i("n", n).i("nb", nb);
                 M.violation("C09:copy", "a copy of a phase space does not report the same data, projections, integral or moments", d.str());
